@@ -14,7 +14,7 @@ N = {'quick': 400, 'thorough': 1200}
 OPS = {'quick': 30, 'thorough': 50}
 import re
 
-TEMPLATES = ['m2m', 'o2m_req', 'o2m_req_nocascade', 'o2o_opt', 'o2o_req', 'o2o_req_cascade', 'self', 'inherit']
+TEMPLATES = ['m2m', 'o2m_req', 'o2m_req_nocascade', 'o2o_opt', 'o2o_req', 'o2o_req_cascade', 'self', 'inherit', 'rich']
 MODES = ['noop', 'read', 'modify', 'create', 'modify_other', 'link']
 AFTER_MODES = ['noop', 'read', 'modify_once', 'modify_other_once']
 WEIGHTS = {'create': 12, 'set': 16, 'setmany': 6, 'add': 8, 'remove': 5, 'assign': 2, 'clear': 1, 'delete': 8,
